@@ -69,6 +69,16 @@ def install_reverse_contract():
 
 def make_case(prop, seed, i, tier):
     rng = rng_for(prop, seed, i)
+    if rng.random() < 0.06:
+        # beyond the usual sizes (run length, fan-in, team size, ...); pauses also far into a long run
+        spec = G.gen_scale(rng)
+        add_due_times(rng, spec)
+        ops = gen_ops(rng, n=rng.randint(1, 3))
+        if spec["scale"] == "long":
+            for op in ops:
+                if op[0] == "pause":
+                    op[1] = rng.choice([op[1], 130, 260, 300, 420])
+        return dict(prop=prop, i=i, spec=spec, ops=ops)
     spec = G.gen_random(rng, G.profile(facility_rich=rng.random() < 0.3, max_time=60, two_parents=0.3))
     if rng.random() < 0.1:
         G.add_idle_parts(rng, spec)
